@@ -16,8 +16,9 @@ Events: (kind, table, extra)
 """
 
 
-def check_history(history):
-    """Returns (violations, stats).  A violation is (rule, table, detail)."""
+def check_history(history, completed=True):
+    """Returns (violations, stats).  A violation is (rule, table, detail).
+    `completed=False`: the run raised; only the safety rules of the executed prefix apply."""
     v = []
     live = set()
     loads = {}
@@ -25,7 +26,7 @@ def check_history(history):
     produced = []
     views = set()
     loading = None
-    execs = [(i, e) for i, e in enumerate(history) if e[0] == "EXEC"]
+    execs = [(i, e) for i, e in enumerate(history) if e[0] == "EXEC-ATTEMPT"]
     outputs = {e[1] for _i, e in execs}
     releases_before_last_stmt = 0
     last_exec_idx = execs[-1][0] if execs else -1
@@ -57,7 +58,7 @@ def check_history(history):
             later = [x[1] for j, x in execs if j < i and t in x[2]]
             if later:
                 v.append(("normalize-after-reader", t, "input canonicalised after %s already read it" % later))
-        elif kind == "EXEC":
+        elif kind == "EXEC-ATTEMPT":
             loading = None
             reads = extra or []
             missing = [r for r in reads if r not in live]
@@ -65,6 +66,7 @@ def check_history(history):
                 v.append(("statement-reads-unmaterialised", t, "statement producing %s reads %s which is not loaded/produced or already released" % (t, missing)))
             if t in live:
                 v.append(("statement-output-already-live", t, ""))
+        elif kind == "EXEC":
             live.add(t)
             produced.append(t)
         elif kind == "UPDATE" and extra == "repr":
@@ -97,6 +99,8 @@ def check_history(history):
                     releases_before_last_stmt += 1
         elif kind == "CLOSE":
             closed = True
+            if not completed:
+                continue
             for t2 in produced:
                 if drops.get(t2, 0) != 1:
                     v.append(("intermediate-not-released-exactly-once", t2, "released %d times" % drops.get(t2, 0)))
@@ -105,6 +109,6 @@ def check_history(history):
                     v.append(("input-released-twice", t2, ""))
             if views:
                 v.append(("temp-view-left-registered", sorted(views)[0], ""))
-    stats = {"loads": len(loads), "statements": len(execs), "releases_before_last_statement": releases_before_last_stmt,
+    stats = {"loads": len(loads), "statements": len([e for e in history if e[0] == "EXEC"]), "releases_before_last_statement": releases_before_last_stmt,
              "closed": closed}
     return v, stats
